@@ -6,8 +6,9 @@
 //! `perm` re-indexes a reordering and compares; `engine` builds the real `EngineState` and reads the
 //! instrument / asset / connectivity tables by position; `exec` runs the real `ExecutionBuilder`.
 //!
-//! Naturals in op lines are mapped order-preservingly: exchange label -> `EXS[label]` (ascending
-//! `ExchangeId`s), name `n` -> fixed-width string, decimals / expiries -> integers.
+//! Naturals in op lines are mapped order-preservingly: exchange label -> `EXS[label]` (the whole
+//! enum, ascending), name `n` -> fixed-width string, expiries -> milliseconds, decimals -> integers
+//! or, after a `dec SCALE OFFSET` op, `(n - OFFSET) / 10^SCALE` (fractional / negative decimals).
 use barter::{
     engine::{
         clock::HistoricalClock,
@@ -62,14 +63,66 @@ use std::{
 };
 use vh::*;
 
-/// label -> ExchangeId, ascending in the derived `Ord` of `ExchangeId` (checked in `main`).
-const EXS: [ExchangeId; 5] = [
+/// label -> ExchangeId: the WHOLE enum in declaration order = ascending in the derived `Ord` of
+/// `ExchangeId` (checked in `main`), so that label order = Rust order.
+const EXS: [ExchangeId; 42] = [
+    ExchangeId::Other,
+    ExchangeId::Simulated,
+    ExchangeId::Mock,
+    ExchangeId::BinanceFuturesCoin,
+    ExchangeId::BinanceFuturesUsd,
+    ExchangeId::BinanceOptions,
+    ExchangeId::BinancePortfolioMargin,
+    ExchangeId::BinanceSpot,
+    ExchangeId::BinanceUs,
+    ExchangeId::Bitazza,
+    ExchangeId::Bitfinex,
+    ExchangeId::Bitflyer,
+    ExchangeId::Bitget,
+    ExchangeId::Bitmart,
+    ExchangeId::BitmartFuturesUsd,
+    ExchangeId::Bitmex,
+    ExchangeId::Bitso,
+    ExchangeId::Bitstamp,
+    ExchangeId::Bitvavo,
+    ExchangeId::Bithumb,
+    ExchangeId::BybitPerpetualsUsd,
+    ExchangeId::BybitSpot,
+    ExchangeId::Cexio,
+    ExchangeId::Coinbase,
+    ExchangeId::CoinbaseInternational,
+    ExchangeId::Cryptocom,
+    ExchangeId::Deribit,
+    ExchangeId::GateioFuturesBtc,
+    ExchangeId::GateioFuturesUsd,
+    ExchangeId::GateioOptions,
+    ExchangeId::GateioPerpetualsBtc,
+    ExchangeId::GateioPerpetualsUsd,
+    ExchangeId::GateioSpot,
+    ExchangeId::Gemini,
+    ExchangeId::Hitbtc,
+    ExchangeId::Htx,
+    ExchangeId::Kraken,
+    ExchangeId::Kucoin,
+    ExchangeId::Liquid,
+    ExchangeId::Mexc,
+    ExchangeId::Okx,
+    ExchangeId::Poloniex,
+];
+
+/// the five exchanges the original generator families use (their labels in `EXS`)
+const OLD5: [ExchangeId; 5] = [
     ExchangeId::BinanceSpot,
     ExchangeId::Bitfinex,
     ExchangeId::Coinbase,
     ExchangeId::Kraken,
     ExchangeId::Okx,
 ];
+
+/// largest name number (names are printed with fixed width 3 so that string order = numeric order)
+const MAX_NAME: usize = 999;
+/// largest decimal / expiry number an op may carry
+const MAX_VALUE: usize = 1_000_000_000_000_000;
 
 fn label(e: ExchangeId) -> String {
     EXS.iter()
@@ -112,46 +165,59 @@ struct D {
 
 struct Toks<'a>(std::slice::Iter<'a, String>);
 impl<'a> Toks<'a> {
-    fn s(&mut self) -> &'a str {
-        self.0.next().expect("token").as_str()
+    fn s(&mut self) -> Option<&'a str> {
+        self.0.next().map(|s| s.as_str())
     }
-    fn n(&mut self) -> usize {
-        self.s().parse().expect("nat")
+    /// a natural written in plain digits (what the drivers' `toNat?` accepts), at most `max`
+    fn n(&mut self, max: usize) -> Option<usize> {
+        let t = self.s()?;
+        if t.is_empty() || !t.bytes().all(|c| c.is_ascii_digit()) {
+            return None;
+        }
+        t.parse().ok().filter(|n| *n <= max)
     }
-    fn a(&mut self) -> A {
-        A(self.n(), self.n())
+    fn a(&mut self) -> Option<A> {
+        Some(A(self.n(MAX_NAME)?, self.n(MAX_NAME)?))
+    }
+    fn v(&mut self) -> Option<usize> {
+        self.n(MAX_VALUE)
     }
 }
 
-fn parse_def(toks: &[String]) -> D {
+/// `None` = malformed (`bad-op`; the drivers reject exactly the same lines): a token missing, not a
+/// natural or trailing, an exchange label outside the enum, a name number above `MAX_NAME`, a
+/// decimal / expiry above `MAX_VALUE`, an enum position out of range
+fn parse_def(toks: &[String]) -> Option<D> {
     let mut t = Toks(toks.iter());
-    let (e, ni, ne) = (t.n(), t.n(), t.n());
-    let base = t.a();
-    let quote = t.a();
-    let qa = t.n();
-    let kind = match t.s() {
+    let (e, ni, ne) = (t.n(EXS.len() - 1)?, t.n(MAX_NAME)?, t.n(MAX_NAME)?);
+    let base = t.a()?;
+    let quote = t.a()?;
+    let qa = t.n(1)?;
+    let kind = match t.s()? {
         "s" => K::S,
-        "p" => K::P(t.n(), t.a()),
-        "f" => K::F(t.n(), t.a(), t.n()),
-        "o" => K::O(t.n(), t.a(), t.n(), t.n(), t.n(), t.n()),
-        other => panic!("bad kind {other}"),
+        "p" => K::P(t.v()?, t.a()?),
+        "f" => K::F(t.v()?, t.a()?, t.v()?),
+        "o" => K::O(t.v()?, t.a()?, t.n(1)?, t.n(2)?, t.v()?, t.v()?),
+        _ => return None,
     };
-    let spec = match t.s() {
+    let spec = match t.s()? {
         "n" => None,
         "y" => {
-            let (pm, tk) = (t.n(), t.n());
-            let u = match t.s() {
-                "a" => U::A(t.a()),
+            let (pm, tk) = (t.v()?, t.v()?);
+            let u = match t.s()? {
+                "a" => U::A(t.a()?),
                 "c" => U::C,
                 "q" => U::Q,
-                other => panic!("bad unit {other}"),
+                _ => return None,
             };
-            Some((pm, tk, u, t.n(), t.n(), t.n()))
+            Some((pm, tk, u, t.v()?, t.v()?, t.v()?))
         }
-        other => panic!("bad spec {other}"),
+        _ => return None,
     };
-    assert!(t.0.next().is_none(), "trailing tokens");
-    D {
+    if t.0.next().is_some() {
+        return None;
+    }
+    Some(D {
         e,
         ni,
         ne,
@@ -160,7 +226,17 @@ fn parse_def(toks: &[String]) -> D {
         qa,
         kind,
         spec,
+    })
+}
+
+/// the naturals of a `perm` / `exec` op, each at most `max`; `None` = malformed
+fn parse_nats(toks: &[String], max: usize) -> Option<Vec<usize>> {
+    let mut t = Toks(toks.iter());
+    let mut v = vec![];
+    while t.0.len() > 0 {
+        v.push(t.n(max)?);
     }
+    Some(v)
 }
 
 fn def_toks(d: &D) -> String {
@@ -209,11 +285,21 @@ fn ins_ne(n: usize) -> InstrumentNameExchange {
 fn un(s: &str) -> usize {
     s[1..].parse().expect("name")
 }
+thread_local! {
+    /// the case's decimal coding `(scale, offset)`, set by the `dec` op: number `n` of an op line
+    /// stands for the Decimal `(n - offset) / 10^scale` - for every fixed pair an injective,
+    /// order-preserving map, so the drivers (which only see `n`) need not know it. `(0, 0)` = the
+    /// plain integers; other pairs reach fractional and NEGATIVE decimals.
+    static DEC: std::cell::Cell<(u32, i64)> = const { std::cell::Cell::new((0, 0)) };
+}
 fn dec(n: usize) -> Decimal {
-    Decimal::from(n as u64)
+    let (scale, off) = DEC.with(|c| c.get());
+    Decimal::new(n as i64 - off, scale)
 }
 fn undec(d: Decimal) -> usize {
-    d.to_string().parse().expect("integer decimal")
+    let (scale, off) = DEC.with(|c| c.get());
+    let n = d * Decimal::from(10u64.pow(scale)) + Decimal::from(off);
+    n.normalize().to_string().parse().expect("decimal outside the case's coding")
 }
 fn time(n: usize) -> DateTime<Utc> {
     Utc.timestamp_millis_opt(1_600_000_000_000 + n as i64).unwrap()
@@ -790,14 +876,15 @@ fn op_exec(defs: &[D], es: &[usize], lines: &mut Vec<String>) {
                 HistoricalClock::new(time(0)),
             )
         } else {
-            match e {
-                0 => builder.add_live::<Stub<0>>((), timeout),
-                1 => builder.add_live::<Stub<1>>((), timeout),
-                2 => builder.add_live::<Stub<2>>((), timeout),
-                3 => builder.add_live::<Stub<3>>((), timeout),
-                4 => builder.add_live::<Stub<4>>((), timeout),
-                _ => panic!("exchange label out of range"),
+            macro_rules! live {
+                ($($n:literal)*) => {
+                    match e {
+                        $($n => builder.add_live::<Stub<$n>>((), timeout),)*
+                        _ => unreachable!("exchange label checked by the op parser"),
+                    }
+                };
             }
+            live!(0 1 2 3 4 5 6 7 8 9 10 11 12 13 14 15 16 17 18 19 20 21 22 23 24 25 26 27 28 29 30 31 32 33 34 35 36 37 38 39 40 41)
         };
         match res {
             Ok(next) => builder = next,
@@ -836,25 +923,46 @@ fn op_exec(defs: &[D], es: &[usize], lines: &mut Vec<String>) {
 fn run() {
     run_cases(|case, lines| {
         let mut defs: Vec<D> = vec![];
+        DEC.with(|c| c.set((0, 0)));
         for op in &case.ops {
             lines.push("@".into());
             let mut block: Vec<String> = vec![];
-            let res = catch_unwind(AssertUnwindSafe(|| match op[0].as_str() {
-                "def" => {
-                    defs.push(parse_def(&op[1..]));
+            // malformed ops are answered `bad-op` (as by the drivers), never run
+            enum Op {
+                Dec(u32, i64),
+                Def(D),
+                Build,
+                Perm(Vec<usize>),
+                Engine,
+                Exec(Vec<usize>),
+            }
+            let parsed = match op[0].as_str() {
+                "dec" if op.len() == 3 => parse_nats(&op[1..2], 8)
+                    .zip(parse_nats(&op[2..], MAX_VALUE))
+                    .map(|(s, o)| Op::Dec(s[0] as u32, o[0] as i64)),
+                "def" => parse_def(&op[1..]).map(Op::Def),
+                "build" if op.len() == 1 => Some(Op::Build),
+                "perm" => parse_nats(&op[1..], usize::MAX)
+                    .filter(|p| p.iter().all(|i| *i < defs.len()))
+                    .map(Op::Perm),
+                "engine" if op.len() == 1 => Some(Op::Engine),
+                "exec" => parse_nats(&op[1..], EXS.len() - 1).map(Op::Exec),
+                _ => None,
+            };
+            let Some(parsed) = parsed else {
+                lines.push("bad-op".into());
+                continue;
+            };
+            let res = catch_unwind(AssertUnwindSafe(|| match parsed {
+                Op::Dec(scale, off) => DEC.with(|c| c.set((scale, off))),
+                Op::Def(d) => {
+                    defs.push(d);
                     block.push(format!("ndefs {}", defs.len()));
                 }
-                "build" => op_build(&defs, &mut block),
-                "perm" => {
-                    let p: Vec<usize> = op[1..].iter().map(|s| s.parse().unwrap()).collect();
-                    op_perm(&defs, &p, &mut block)
-                }
-                "engine" => op_engine(&defs, &mut block),
-                "exec" => {
-                    let es: Vec<usize> = op[1..].iter().map(|s| s.parse().unwrap()).collect();
-                    op_exec(&defs, &es, &mut block)
-                }
-                other => panic!("bad op {other}"),
+                Op::Build => op_build(&defs, &mut block),
+                Op::Perm(p) => op_perm(&defs, &p, &mut block),
+                Op::Engine => op_engine(&defs, &mut block),
+                Op::Exec(es) => op_exec(&defs, &es, &mut block),
             }));
             match res {
                 Ok(()) => lines.extend(block),
@@ -995,14 +1103,37 @@ fn permutations(n: usize) -> Vec<Vec<usize>> {
     out
 }
 
+/// labels (positions in `EXS`) of the five exchanges of the original families
+fn old5() -> Vec<usize> {
+    OLD5.iter()
+        .map(|e| EXS.iter().position(|x| x == e).unwrap())
+        .collect()
+}
+
+fn shuffle(rng: &mut Rng, p: &mut [usize]) {
+    for i in (1..p.len()).rev() {
+        let j = rng.below(i as u64 + 1) as usize;
+        p.swap(i, j);
+    }
+}
+
+fn join(p: &[usize]) -> String {
+    p.iter().map(|x| x.to_string()).collect::<Vec<_>>().join(" ")
+}
+
 fn emit_case(out: &mut Out, g: &mut Gen, id: String, n: usize, all_perms: bool) {
     out.case(id);
-    let defs = g.defs(n);
+    // the generator's exchange numbers 0..4 are the five original exchanges, ascending
+    let lab = old5();
+    let defs: Vec<D> = g
+        .defs(n)
+        .into_iter()
+        .map(|d| D { e: lab[d.e], ..d })
+        .collect();
     for d in &defs {
         out.line(format!("def {}", def_toks(d)));
     }
     out.line("build");
-    let join = |p: &[usize]| p.iter().map(|x| x.to_string()).collect::<Vec<_>>().join(" ");
     if all_perms {
         for p in permutations(n) {
             out.line(format!("perm {}", join(&p)).trim_end());
@@ -1011,10 +1142,7 @@ fn emit_case(out: &mut Out, g: &mut Gen, id: String, n: usize, all_perms: bool) 
         for _ in 0..3 {
             // random shuffle; sometimes with an element repeated (same set, other multiplicities)
             let mut p: Vec<usize> = (0..n).collect();
-            for i in (1..n).rev() {
-                let j = g.rng.below(i as u64 + 1) as usize;
-                p.swap(i, j);
-            }
+            shuffle(&mut g.rng, &mut p);
             if n > 0 && g.rng.chance(30) {
                 let extra = g.rng.below(n as u64) as usize;
                 let at = g.rng.below(p.len() as u64 + 1) as usize;
@@ -1031,12 +1159,262 @@ fn emit_case(out: &mut Out, g: &mut Gen, id: String, n: usize, all_perms: bool) 
     known.dedup();
     for _ in 0..2 {
         let mut es: Vec<usize> = known.iter().copied().filter(|_| g.rng.chance(60)).collect();
-        for i in (1..es.len()).rev() {
-            let j = g.rng.below(i as u64 + 1) as usize;
-            es.swap(i, j);
+        shuffle(&mut g.rng, &mut es);
+        if g.rng.chance(10) {
+            es.push(lab[g.rng.below(lab.len() as u64) as usize]);
         }
+        out.line(format!("exec {}", join(&es)).trim_end());
+    }
+}
+
+// ------------------------------------------------------------ input-domain families (`w`, `l`)
+
+/// decimals: zero, small, multi-digit (numeric order differs from the order of the digit strings),
+/// the largest magnitudes a real specification carries
+const VALS: [usize; 10] = [
+    0,
+    1,
+    1,
+    2,
+    5,
+    9,
+    10,
+    100,
+    999_999_999_999,
+    1_000_000_000_000,
+];
+/// expiries (ms after the harness' base instant): equal, adjacent, a second / a day / decades apart
+const EXPS: [usize; 7] = [0, 1, 2, 999, 1000, 86_400_000, 1_000_000_000_000];
+
+/// Collections outside the small world of `Gen`: exchanges drawn from the WHOLE enum (up to 8 in one
+/// collection, first and last variant included), instrument names in no particular order, assets
+/// from a pool of `na` internal names whose exchange names are an arbitrary per-exchange function
+/// (two internal names may share one exchange name; the same internal name has unrelated exchange
+/// names on two exchanges), decimals / expiries from `VALS` / `EXPS`.
+struct Gen2 {
+    rng: Rng,
+    wf: bool,
+    shared: bool,
+    /// labels of the case's exchanges
+    exs: Vec<usize>,
+    na: usize,
+    /// per exchange (position in `exs`) and internal asset name: the exchange name
+    xn: Vec<Vec<usize>>,
+    /// instrument names in use: (exchange position, name); exchange position 0 for all when names
+    /// are to be unique over the collection
+    used: std::collections::HashSet<(usize, usize)>,
+    /// size of the pool instrument names are drawn from
+    names: usize,
+}
+
+impl Gen2 {
+    fn new(mut rng: Rng, wf: bool, shared: bool, n_ex: usize, na: usize, names: usize) -> Gen2 {
+        // a random subset of the enum; every fourth case holds the first and the last variant
+        let mut all: Vec<usize> = (0..EXS.len()).collect();
+        shuffle(&mut rng, &mut all);
+        let mut exs: Vec<usize> = all.into_iter().take(n_ex).collect();
+        if rng.chance(25) && n_ex >= 2 {
+            if !exs.contains(&0) {
+                exs[0] = 0;
+            }
+            if !exs.contains(&(EXS.len() - 1)) {
+                exs[1] = EXS.len() - 1;
+            }
+        }
+        // few distinct exchange names so that two internal names share one
+        let pool = (na * 2 / 3).max(2);
+        let xn = (0..n_ex)
+            .map(|_| (0..na).map(|_| rng.below(pool as u64) as usize).collect())
+            .collect();
+        Gen2 {
+            rng,
+            wf,
+            shared,
+            exs,
+            na,
+            xn,
+            used: Default::default(),
+            names,
+        }
+    }
+    fn asset(&mut self, e: usize) -> A {
+        let ni = self.rng.below(self.na as u64) as usize;
+        if self.wf {
+            A(ni, self.xn[e][ni])
+        } else if self.rng.chance(70) {
+            A(ni, self.xn[e][ni])
+        } else {
+            A(ni, self.rng.below(self.na as u64) as usize)
+        }
+    }
+    fn val(&mut self) -> usize {
+        *self.rng.pick(&VALS)
+    }
+    /// an instrument name for exchange position `e` respecting the case's uniqueness mode
+    fn name(&mut self, e: usize) -> usize {
+        if !self.wf {
+            return self.rng.below(self.names.min(6) as u64) as usize;
+        }
+        loop {
+            let n = self.rng.below(self.names as u64) as usize;
+            let key = (if self.shared { e } else { 0 }, n);
+            if self.used.insert(key) {
+                return n;
+            }
+        }
+    }
+    fn def(&mut self) -> D {
+        let e = self.rng.below(self.exs.len() as u64) as usize;
+        let ni = self.name(e);
+        // exchange names of instruments: often from a few (shared within and between exchanges)
+        let ne = if self.rng.chance(50) {
+            self.rng.below(6) as usize
+        } else {
+            self.rng.below(self.names as u64) as usize
+        };
+        let base = self.asset(e);
+        let quote = self.asset(e);
+        let kind = match self.rng.below(5) {
+            0 | 1 => K::S,
+            2 => K::P(self.val(), self.asset(e)),
+            3 => K::F(self.val(), self.asset(e), *self.rng.pick(&EXPS)),
+            _ => K::O(
+                self.val(),
+                self.asset(e),
+                self.rng.below(2) as usize,
+                self.rng.below(3) as usize,
+                *self.rng.pick(&EXPS),
+                self.val(),
+            ),
+        };
+        let spec = if self.rng.chance(40) {
+            None
+        } else {
+            let u = match self.rng.below(4) {
+                0 | 1 => U::A(self.asset(e)),
+                2 => U::C,
+                _ => U::Q,
+            };
+            Some((self.val(), self.val(), u, self.val(), self.val(), self.val()))
+        };
+        D {
+            e,
+            ni,
+            ne,
+            base,
+            quote,
+            qa: self.rng.below(2) as usize,
+            kind,
+            spec,
+        }
+    }
+    /// `e` is the exchange POSITION here; mapped to labels by `emit_case2`
+    fn defs(&mut self, n: usize) -> Vec<D> {
+        let mut v: Vec<D> = vec![];
+        while v.len() < n {
+            if !v.is_empty() && self.rng.chance(15) {
+                let d = self.rng.pick(&v).clone();
+                v.push(d);
+            } else if !v.is_empty() && self.rng.chance(15) {
+                // the same shape on another exchange; a one-field variation of it on the same one
+                let mut d = self.rng.pick(&v).clone();
+                let e = self.rng.below(self.exs.len() as u64) as usize;
+                if e == d.e {
+                    // differs from an existing definition in ONE late field of the derived order
+                    d.ni = self.name(e);
+                    match &mut d.kind {
+                        K::S => d.qa = 1 - d.qa,
+                        K::P(s, _) => *s = *self.rng.pick(&VALS),
+                        K::F(_, _, x) => *x = *self.rng.pick(&EXPS),
+                        K::O(_, _, p, ..) => *p = 1 - *p,
+                    }
+                } else {
+                    d.e = e;
+                    if self.wf {
+                        if !(self.shared && self.used.insert((e, d.ni))) {
+                            d.ni = self.name(e);
+                        }
+                        let xn = &self.xn[e];
+                        let fix = |a: &mut A| a.1 = xn[a.0];
+                        fix(&mut d.base);
+                        fix(&mut d.quote);
+                        match &mut d.kind {
+                            K::S => {}
+                            K::P(_, a) | K::F(_, a, _) | K::O(_, a, ..) => fix(a),
+                        }
+                        if let Some((_, _, U::A(a), ..)) = &mut d.spec {
+                            fix(a);
+                        }
+                    }
+                }
+                v.push(d);
+            } else {
+                let d = self.def();
+                v.push(d);
+            }
+        }
+        v
+    }
+}
+
+fn emit_case2(out: &mut Out, g: &mut Gen2, id: String, n: usize, coded: bool) {
+    out.case(id);
+    if coded {
+        // fractional and negative decimals: (n - offset) / 10^scale
+        let scale = *g.rng.pick(&[0u32, 2, 8]);
+        let off = *g.rng.pick(&[0usize, 3, 10, 500_000_000_000]);
+        out.line(format!("dec {scale} {off}"));
+    }
+    let defs: Vec<D> = g
+        .defs(n)
+        .into_iter()
+        .map(|d| D { e: g.exs[d.e], ..d })
+        .collect();
+    for d in &defs {
+        out.line(format!("def {}", def_toks(d)));
+    }
+    out.line("build");
+    for k in 0..3 {
+        let mut p: Vec<usize> = (0..n).collect();
+        shuffle(&mut g.rng, &mut p);
+        match (k, g.rng.below(4)) {
+            // the reverse order; every element twice; one element many times; a plain shuffle
+            (0, _) => p = (0..n).rev().collect(),
+            (_, 0) => {
+                let mut q = p.clone();
+                shuffle(&mut g.rng, &mut q);
+                p.extend(q);
+            }
+            (_, 1) if n > 0 => {
+                let extra = g.rng.below(n as u64) as usize;
+                for _ in 0..3 {
+                    let at = g.rng.below(p.len() as u64 + 1) as usize;
+                    p.insert(at, extra);
+                }
+            }
+            _ => {}
+        }
+        out.line(format!("perm {}", join(&p)).trim_end());
+    }
+    out.line("engine");
+    let mut known: Vec<usize> = defs.iter().map(|d| d.e).collect();
+    known.sort();
+    known.dedup();
+    for k in 0..2 {
+        // all exchanges of the collection (first op) or a random subset, in random order; sometimes
+        // an exchange of the enum the collection does not mention, or a duplicate
+        let mut es: Vec<usize> = known
+            .iter()
+            .copied()
+            .filter(|_| k == 0 || g.rng.chance(60))
+            .collect();
+        shuffle(&mut g.rng, &mut es);
         if g.rng.chance(10) {
             es.push(g.rng.below(EXS.len() as u64) as usize);
+        } else if !es.is_empty() && g.rng.chance(6) {
+            let at = g.rng.below(es.len() as u64 + 1) as usize;
+            let x = *g.rng.pick(&es);
+            es.insert(at, x);
         }
         out.line(format!("exec {}", join(&es)).trim_end());
     }
@@ -1074,6 +1452,35 @@ fn generate(seed: u64, n_cases: usize, tier: &str) {
         let n = rng.range(0, 8) as usize;
         emit_case(&mut out, &mut g, format!("r{id}"), n, false);
     }
+    // input-domain families, separately seeded (the cases above do not depend on them):
+    // `w`: 0-12 definitions over 1-8 exchanges of the whole enum, wide values (n / 8 cases);
+    // `l`: large collections, 50-130 definitions over 2-8 exchanges and 8-40 asset names
+    //      (n / 60 cases; every tenth one, the fifth first, 260-320 definitions: indices past u8)
+    let mut rng = Rng::new(seed ^ 0x11d0_d0a1);
+    for k in 0..n_cases / 8 {
+        let wf = !rng.chance(12);
+        let n_ex = rng.range(1, 8) as usize;
+        let na = rng.range(2, 6) as usize;
+        let n = rng.range(0, 12) as usize;
+        let mut g = Gen2::new(rng.fork(), wf, k % 5 == 1, n_ex, na, 1000);
+        let coded = k % 5 >= 3;
+        emit_case2(&mut out, &mut g, format!("w{}", k + 1), n, coded);
+    }
+    for k in 0..n_cases / 60 {
+        let wf = !rng.chance(10);
+        let n_ex = rng.range(2, 8) as usize;
+        let na = rng.range(8, 40) as usize;
+        let n = if k % 10 == 4 {
+            rng.range(260, 320) as usize
+        } else {
+            rng.range(50, 130) as usize
+        };
+        // shared mode draws names from a pool about the size of the collection: many names occur
+        // on several exchanges
+        let shared = k % 4 == 1;
+        let mut g = Gen2::new(rng.fork(), wf, shared, n_ex, na, if shared { n.max(8) } else { 1000 });
+        emit_case2(&mut out, &mut g, format!("l{}", k + 1), n, k % 3 == 2);
+    }
     out.flush();
 }
 
@@ -1081,6 +1488,7 @@ fn main() {
     let mut sorted = EXS;
     sorted.sort();
     assert_eq!(sorted, EXS, "EXS must ascend in ExchangeId's derived order");
+    assert!(OLD5.iter().all(|e| EXS.contains(e)));
     let a = args();
     match a.cmd.as_str() {
         "gen" => generate(a.seed, a.n, &a.tier),
